@@ -556,6 +556,7 @@ func RunStreamCapture(em *Emitter, tr int, st *Stream, capt *Capture) {
 	inputs := []any{}
 	sidOf := map[string]string{} // ptype -> current sid
 	gapped := map[string]bool{}
+	delivered := map[string]bool{} // schema ids the consumer has been handed so far
 	retired := ""
 	type ladder struct {
 		limit   uint64
@@ -784,13 +785,49 @@ func RunStreamCapture(em *Emitter, tr int, st *Stream, capt *Capture) {
 				mainPresent = true
 			}
 		}
+		// Splice: a payload handed over under a schema id whose reader already holds another sub-stream's schema (the
+		// reader existed before this batch, or an earlier payload of this batch opened it) makes that reader read IPC
+		// bytes of a foreign sub-stream - where C07's domain ends ("faults that splice Arrow IPC bytes between
+		// different sub-streams").  Stream.tla has the exact rule (`judged`); this is its conservative approximation.
+		spliced := false
+		if len(faults) > 0 {
+			have := map[string]bool{}
+			if HaveProjection {
+				for _, sid := range consumerIDs(c) {
+					have[sid] = true
+				}
+			} else {
+				for sid := range delivered {
+					have[sid] = true
+				}
+			}
+			for _, q := range toDecode.ArrowPayloads {
+				own := ""
+				for _, pl := range bar.ArrowPayloads {
+					if len(q.Record) > 0 && string(q.Record) == string(pl.Record) && (own == "" || pl.SchemaId == q.SchemaId) {
+						own = pl.SchemaId
+					}
+				}
+				if own != "" && own != q.SchemaId && have[q.SchemaId] {
+					spliced = true
+				}
+				have[q.SchemaId] = true
+			}
+		}
+		for _, q := range toDecode.ArrowPayloads {
+			delivered[q.SchemaId] = true
+		}
 		out, n, doc, dmsg, _ := decode(c, sig, toDecode)
 		if capt != nil {
 			capt.Oc = append(capt.Oc, doc)
 			capt.Out = append(capt.Out, out)
 		}
+		domain := boolp(tainted)
+		if spliced {
+			domain = 2
+		}
 		dev := map[string]any{"k": k, "sig": sig, "oc": doc, "err": dmsg, "n": n, "l": faults,
-			"flag": boolp(healthy), "a": boolp(mainPresent), "b": itemCount(in), "x": digestNodes(out), "bid": boolp(tainted)}
+			"flag": boolp(healthy), "a": boolp(mainPresent), "b": itemCount(in), "x": digestNodes(out), "bid": domain}
 		if doc != "ok" {
 			// a rejected batch may have stopped before feeding its later payloads to their readers
 			for _, pl := range bar.ArrowPayloads {
